@@ -1106,7 +1106,7 @@ class Interp:
                 for q_ in pv[i_ + 1:]:
                     for d_ in (Lin.var(p_) - Lin.var(q_), Lin.var(q_) - Lin.var(p_)):
                         ma, mb = sa.min_of(d_), sb.min_of(d_)
-                        if ma is not None and mb is not None and abs(min(ma, mb)) <= (1 << 20):
+                        if ma is not None and mb is not None and abs(min(ma, mb)) <= 64:
                             extra.append(d_ - min(ma, mb))
         sysj = sys_join(sa, sb, extra_candidates=extra)
         if self.trace == "JOIN":
